@@ -123,12 +123,31 @@ def expected():
 
 
 def compare():
-    """returns (inventory, unexpected entries, missing entries) - matching ignores line numbers"""
+    """returns (inventory, unexpected entries, missing entries).  An expected entry stands for what the
+    C19 model has: *one per-thread slot* declared in that file - it is matched by any single declaration
+    with thread storage duration there, whatever its spelling (`static thread_local Optional<T> value`,
+    `thread_local Storage storage`, ...); storage shared by all threads never matches."""
     inv = inventory()
     exp = expected()
-    key = lambda d: (d['file'], d['decl'])
-    unexpected = [d for d in inv if key(d) not in {key(e) for e in exp}]
-    missing = [e for e in exp if key(e) not in {key(d) for d in inv}]
+    used = set()
+    missing = []
+    for e in exp:
+        hit = None
+        for i, d in enumerate(inv):
+            if i in used or d['file'] != e['file']:
+                continue
+            if re.search(r'\bthread_local\b', e['decl']):
+                ok = re.search(r'\bthread_local\b', d['decl']) is not None
+            else:
+                ok = d['decl'] == e['decl']
+            if ok:
+                hit = i
+                break
+        if hit is None:
+            missing.append(e)
+        else:
+            used.add(hit)
+    unexpected = [d for i, d in enumerate(inv) if i not in used]
     return inv, unexpected, missing
 
 
